@@ -522,6 +522,7 @@ impl Prop for C07 {
         let mut file = if idx % 4 == 3 {
             let mut cfg = GenCfg::strict_full();
             cfg.fault_pct = 0;
+            cfg.ast_mutation_pct = 0;
             gen_program(rng, &cfg).file
         } else {
             let mut g = FreeGen { rng, caps: vec![] };
